@@ -3,7 +3,7 @@ import os, sys, json
 sys.path.insert(0, os.path.join(os.path.dirname(os.path.abspath(__file__)), '..', 'lib'))
 import vcommon as V
 
-PROPS = ['props/C02.v', 'regress/C02.v', 'props/C02_pipeline.v', 'props/C02_src.v']
+PROPS = ['props/C02.v', 'regress/C02.v', 'props/C02_pipeline.v', 'props/C02_src.v', 'props/State.v']
 ASSUMPTIONS = [
     "vsig : env -> key -> bool — Metadata.VerifySignature(key) == nil (Metablock and DSSE Envelope); Section variable, every theorem holds for an arbitrary function. "
     "For execution it is a per-case finite table computed with Go's crypto packages directly (lib.VerifyRaw over canonical bytes resp. PAE), not with the library's VerifySignature; "
